@@ -3,6 +3,7 @@
 //! a behaviour) into recorded ndjson traces of the real code, or generates scripts.
 mod cycle;
 mod dbgwrite;
+mod dap;
 mod debug;
 mod det;
 mod emit;
@@ -32,6 +33,7 @@ fn main() {
         "cycle-gen" => cycle::gen(rest),
         "cycle-run" => cycle::run(rest),
         "debug-run" => debug::run(rest),
+        "dap-child" => dap::child(rest), "dap-run" => dap::run(rest),
         "det-child" => det::child(rest),
         "fb-gen" => fb::gen(rest),
         "fb-run" => fb::run(rest),
